@@ -200,14 +200,14 @@ func (x *Exec) frameSetup(u *Unit, fr *Frame) {
 // frameGoal: heap entry `key` with current value fin differs from the entry
 // state only at allowed locations or at objects allocated since. nil = no constraint.
 func (x *Exec) frameGoal(k string, fin *Term) *Term {
-	if !x.frameOn {
+	if !x.frameOn || strings.HasPrefix(k, "local:") {
 		return nil
 	}
 	srt, ok := x.heapSort[k]
 	if !ok {
 		return nil
 	}
-	init := &Term{quoteName("H0" + k), srt}
+	init := x.sc.global(quoteName("H0"+k), srt)
 	if fin.S == init.S {
 		return nil
 	}
@@ -251,6 +251,9 @@ func (x *Exec) frameCheck(u *Unit, fr *Frame) {
 	}
 	sort.Strings(keys)
 	for _, k := range keys {
+		if strings.HasPrefix(k, "local:") {
+			continue
+		}
 		if goal := x.frameGoal(k, x.st.heap[k]); goal != nil {
 			x.oblige("frame", k, x.frameProps, goal, "only listed locations of "+k+" change")
 		}
